@@ -37,8 +37,12 @@ def equate(a: Quantity, b: Quantity) -> None:
     a = a.unprefixed()
     b = b.unprefixed()
 
-    _ratios[a.unit][b.unit] = _div(b.magnitude, a.magnitude)
-    _ratios[b.unit][a.unit] = _div(a.magnitude, b.magnitude)
+    # compute both directions first: a zero magnitude must not leave one of them behind
+    forward = _div(b.magnitude, a.magnitude)
+    backward = _div(a.magnitude, b.magnitude)
+
+    _ratios[a.unit][b.unit] = forward
+    _ratios[b.unit][a.unit] = backward
 
 
 def translate(scale: Unit, zero: Quantity) -> None:
